@@ -343,6 +343,8 @@ def check_hypotheses(ctx, cases):
             ctx.hist["programs_in_clean_fragment"] += 1     # the both-directions theorems (Props/Clean, SearchComplete) apply
         if d.get("straight") == "1" and "(" in c.pattern:
             ctx.hist["programs_in_straight_capture_fragment"] += 1   # C03b / C03c apply (groups reported = first path's)
+        if d.get("clean3") == "1":
+            ctx.hist["programs_in_clean3_fragment"] += 1    # … and greedy min>=1 repeats over deterministic bodies (Props/Clean3*)
         if d.get("clean2") == "1":
             ctx.hist["programs_in_clean2_fragment"] += 1    # … extended by justified UnambiguousRepeat nodes (Props/Clean2*)
         if d.get("nea") == "0" and "q" not in c.flags:
